@@ -11,9 +11,9 @@ BASELINE = "cd /repo && /venv/bin/python -m pytest -ra -q -p no:cacheprovider --
 CHECKS = {
     "C01": dict(
         level="exploration",
-        technique="deviation-bounded enumeration (k<=1 quick, k<=2 thorough) of wavefunction objects x 5 targets x allow_changes on the real dump_one/load_one, independent GTO evaluator as oracle; corpus sweep",
+        technique="deviation-bounded enumeration (k<=1 quick, k<=2 thorough) of wavefunction objects x 5 targets x allow_changes on the real dump_one/load_one, independent GTO evaluator as oracle on the reloaded object AND on an independent parse of the written FCHK/WFN/WFX file; corpus sweep",
         text="Every wavefunction object with <=k deviations over centers, shell set, contraction scheme, shell order, conventions, orbital kind, extras is written to FCHK, Molden, Molekel, WFN, WFX "
-        "with and without allow_changes; a written file must reload to the same nuclei, orbital values at 14 probe points, occupations, energies, spin and densities; every corpus wavefunction file is converted to every target.",
+        "with and without allow_changes; a written file must reload to the same nuclei, orbital values at 14 probe points, occupations, energies, spin and densities; the written FCHK/WFN/WFX file is also parsed by ref/wfreaders.py (no iodata reader) and must denote the same orbitals, occupations, energies and densities; full products shell order x conventions and (FCHK) conventions x stored density matrices; every corpus wavefunction file is converted to every target.",
         note="orbital values by ref/gto.py on the source (rounded to the printed digits of exponents/contractions) and on the reloaded object; tolerances = 0.6 unit in the last printed place, linearly propagated",
         design="DESIGN.md §2 C01",
     ),
@@ -27,9 +27,9 @@ CHECKS = {
     ),
     "C03": dict(
         level="exploration",
-        technique="deviation-bounded enumeration (k<=1 quick, k<=2 thorough) of files produced by independent writers for 17 formats (incl. FCHK, WFN, WFX with orbital values evaluated from the file tables) + exhaustive (budgeted) single-token metamorphic substitution on generated and corpus files of all format modules, on the real load_one/load_many",
-        text="Independent writers following the public layouts (FCHK, WFN, WFX, XYZ, extXYZ, PDB, MOL2, SDF, GRO, CRD, POSCAR, CHGCAR, LOCPOT, cube, Gaussian input, FCIDUMP, Gaussian log) with counters crossing their widths, column-filling/touching "
-        "fields, negative and wide values, every bond type, block boundaries, header variants; every loaded attribute compared with the model. Metamorphic: each uniquely locatable numeric token replaced by another value of the same width; "
+        technique="deviation-bounded enumeration (k<=1 quick, k<=2 thorough) of files produced by independent writers for 18 formats (incl. FCHK, WFN, WFX with orbital values evaluated from the file tables, GAMESS punch) + exhaustive (budgeted) single-token metamorphic substitution on generated and corpus files of all format modules, on the real load_one/load_many",
+        text="Independent writers following the public layouts (FCHK, WFN, WFX, GAMESS punch, XYZ, extXYZ, PDB, MOL2, SDF, GRO, CRD, POSCAR, CHGCAR, LOCPOT, cube, Gaussian input, FCIDUMP, Gaussian log) with counters crossing their widths, column-filling/touching "
+        "fields, negative and wide values, every bond type, block boundaries (100+ Hessian row labels, 5-column blocks), name-labelled rows in permuted order, header variants; every loaded attribute compared with the model. Metamorphic: each uniquely locatable numeric token replaced by another value of the same width; "
         "the attribute element that held it must take the new value under the format's unit map.",
         note="hand-typed CODATA factors (5e-9 relative slack for CODATA releases); Molden/Molekel layouts by C05's writers; MWFN and the program logs (GAMESS, ORCA, Q-Chem, CP2K) by the metamorphic part",
         design="DESIGN.md §2 C03",
@@ -37,8 +37,8 @@ CHECKS = {
     "C04": dict(
         level="exploration",
         technique="exhaustive enumeration of the (quantity x format x format) table on the real loaders/writers with files from independent writers in each format's prescribed unit, hand-typed CODATA constants, physical anchors on corpus files",
-        text="All 10 unit constants; one system written in 15 format variants (angstrom/nm/bohr/fractional, ps, nm/ps, amu, eV, electrons per cell): each format vs the model and every ordered pair of formats per quantity; every iodata writer's "
-        "output parsed for the prescribed unit; masses of program-written files against standard atomic weights and Q-Chem moments against the printed Debye values.",
+        text="All 10 unit constants; one system written in 17 format variants (angstrom/nm/bohr/fractional, ps, nm/ps, amu, eV, electrons per cell): each format vs the model and every ordered pair of formats per quantity; every iodata writer's "
+        "output parsed for the prescribed unit; masses loaded from FCHK/extXYZ/CHARMM/QCSchema and re-written to FCHK/QCSchema (conversion chain) in amu; masses of program-written files against standard atomic weights and Q-Chem moments against the printed Debye values.",
         note="5e-9 relative slack between CODATA releases; extended-XYZ energy/forces documented as passed through",
         design="DESIGN.md §2 C04",
     ),
@@ -63,7 +63,7 @@ CHECKS = {
         level="fault_enumeration",
         technique="exhaustive crash-point / single-fault enumeration on file contents fed to the real load_one/load_many (recording LineIterator, watchdog)",
         text="Every line-boundary truncation of every generated file and of every corpus file up to 300 (quick) / 3000 (thorough) lines (larger: every n-th line, cap recorded), every byte truncation of small generated files, "
-        "every single-line delete/duplicate/swap, every single-token substitution from an 8-entry menu, empty/binary/foreign content, explicit fmt= for every module; load_one and load_many (exhausted and abandoned).",
+        "every single-line delete/duplicate/swap, every single-token substitution from an 8-entry menu, empty/binary/foreign content, explicit fmt= for every module; load_one and load_many (exhausted; closed and dropped after 0, 1, 2 requested frames).",
         note="outcome must be consistent objects or LoadError naming the file with lineno equal to the iterator position; handles closed; watchdog max(20 s, 30x baseline)",
         design="DESIGN.md §2 C07",
     ),
@@ -111,7 +111,7 @@ CHECKS = {
     "C13": dict(
         level="fault_enumeration",
         technique="exhaustive enumeration of frame sequences (length<=3 quick, <=4 + 50 thorough) x formats x iterable kinds on the real dump_many/load_many, plus every-line truncation and every-numeric-field corruption of multi-frame files",
-        text="All sequences over a 6-frame menu for XYZ/PDB/MOL2/SDF given as list, generator and generator raising at each item; event log of pulls and writes (laziness); reloaded frames bit-identical to per-frame dump_one+load_one; "
+        text="All sequences over a 6-frame menu for XYZ/PDB/MOL2/SDF given as list, generator and generator raising at each item; event log of pulls and writes (laziness); reloaded frames bit-identical to per-frame dump_one+load_one; read side: all sequences (<=3, thorough <=4) of 5-6 heterogeneous frame texts from independent writers for XYZ/SDF/MOL2/PDB/GRO/extXYZ, every frame bit-identical to the same text loaded alone in a fresh forked process; "
         "truncation after every line and {x,1e,-,999999} in every numeric field of every non-last frame for XYZ, PDB, MOL2, SDF, GRO, extXYZ; corpus FCHK trajectories vs an independent parse.",
         note="a truncated/corrupted last frame may be dropped; a corrupted field may change only its own frame",
         design="DESIGN.md §2 C13",
@@ -137,7 +137,7 @@ CHECKS = {
         "thread-schedule exploration with a hand-written scheduler (sys.settrace + semaphore baton)",
         text="65 API calls (every format's load/dump/write_input on corpus or generated data, failing calls, ghost atoms): each history starts from the initial interpreter state in a forked child; every step's result must equal the "
         "call alone in a fresh interpreter and the snapshot of all module-level tables and the warnings machinery must remain the initial state (1 state, self-loops only). Threads: all schedules with <=2 preemptions of pairs "
-        "(thorough: 15 pairs + 2 triples) of 6 cheap calls, scheduling points at every line of the API wrapper and of catch_warnings.__enter__/__exit__.",
+        "(thorough: 15 pairs + 2 triples) of 6 cheap calls, scheduling points at every line of the API wrapper and of catch_warnings.__enter__/__exit__; dense pass: pairs of calls into the SAME format module (5 pairs quick, 22 thorough) with a scheduling point at every line of iodata code (first 2 / 4 visits of each line per thread), all schedules with <=1 preemption.",
         note="thread results compared with the same calls run alone; harness records warnings through one process-wide hook (no catch_warnings in threads); executions capped at 3000/60000 per group (cap recorded)",
         design="DESIGN.md §2 C16",
     ),
